@@ -57,10 +57,21 @@ def sig_match(a, b, prec):
     return walk(a, b)
 
 
-def classify(ops, done, rc, err, n):
+def classify(ops, done, rc, err, n, nthreads=1):
     """-> (ok, outcome-string)"""
     if rc is None: return False, "hang"
     if rc == 77 and "VF_ABORT" in (err or ""): return True, "abort-diagnostic"
+    if nthreads > 1 and rc is not None and rc > 0 and "Sanitizer" in (err or ""):
+        # one worker printed the library's diagnostic and called exit(); while exit() ran the shared libraries' destructors another worker,
+        # still computing, took a SIGSEGV (same situation as C05's too-small estimates).  Accepted as "stopped with the diagnostic" only when
+        # the diagnostic comes first, ASan names no memory error other than that signal, the fault is not a NULL dereference, and no
+        # frame of the report is in the library's own factorization code; anything else stays a crash.
+        import re as _re
+        dpos = [err.find(w) for w in ("exceeded", "fails", "Not enough memory", "SUPERLU_MALLOC", "Memory allocation failed") if w in err]
+        kinds = _re.findall(r"ERROR: AddressSanitizer: (\S+)", err)
+        if (dpos and err.find("Sanitizer") > min(dpos) and all(k == "SEGV" for k in kinds) and "runtime error" not in err and "zero page" not in err
+                and not _re.search(r"#\d+ 0x[0-9a-f]+ in (p?[sdcz]g[st]|p?[sdcz]gstrf|pxgstrf|sp_|[sdcz]lsolve|[sdcz]usolve|[sdcz]matvec)", err)):
+            return True, "exit-diagnostic(worker signal during exit)"
     if rc != 0 and rc > 0 and ("Sanitizer" not in (err or "")) and ("exceeded" in err or "fails" in err or "Not enough memory" in err or "SUPERLU_MALLOC" in err or "Memory allocation failed" in err):
         return True, "exit-diagnostic"
     if rc != 0 or not done:
@@ -120,7 +131,7 @@ def run(ctx):
     hist = Counter(); refs = {}; seqs = []
     for (kind, prec, n, P, lw, s), (ops, done, rc, err) in outs:
         blob = {"kind": kind, "prec": prec, "n": n, "P": P, "lwork": lw, "script": s, "rc": rc, "stderr": (err or "")[-600:]}
-        ok, outcome = classify(ops, done, rc, err, n)
+        ok, outcome = classify(ops, done, rc, err, n, nthreads=P)
         hist["%s:%s" % (kind, outcome.split("@")[0])] += 1
         if kind == "query":
             if not ok or outcome != "info>n":
@@ -174,8 +185,8 @@ def run(ctx):
         fouts = list(ex.map(runf, fj))
     fired = 0
     for (prec, n, P, k, K, s), (ops, done, rc, err) in fouts:
-        blob = {"kind": "alloc-fault", "prec": prec, "n": n, "P": P, "fail_from_request": k, "requests_in_call": K, "script": s, "rc": rc, "stderr": (err or "")[-600:]}
-        ok, outcome = classify(ops, done, rc, err, n)
+        blob = {"kind": "alloc-fault", "prec": prec, "n": n, "P": P, "fail_from_request": k, "requests_in_call": K, "script": s, "rc": rc, "stderr": (err or "")[-1500:]}
+        ok, outcome = classify(ops, done, rc, err, n, nthreads=P)
         site = "-"
         if ops and "allocs" in ops[-1]:
             fired += 1 if ops[-1]["allocs"][1] > 0 else 0; site = ops[-1]["allocs"][2]
